@@ -178,6 +178,12 @@ func leafSimple(kind string, n int) jx.Obj {
 	return jx.Obj{"type": "string", "enum": jx.Arr{"simple" + strconv.Itoa(n)}}
 }
 
+// hdrName varies the header name: '~' is a legal character of an HTTP token, '/' is not but loads all the same;
+// both need escaping in a JSON pointer.
+func hdrName(n int) string {
+	return []string{"X-Planted", "X~Planted", "X-Pl/anted", "X~1Planted"}[n%4]
+}
+
 // PlantedCount is the number of systematic locations per leaf kind.
 func PlantedCount() int { return len(plantedSpecs()) }
 
@@ -289,10 +295,10 @@ func plantedSpecs() []plantedSpec {
 					put(d, path, method, key, jx.Obj{"$ref": "#/responses/sharedOne"})
 				}
 			case "pattern":
-				put(d, path, method, key, jx.Obj{"description": "r", "headers": jx.Obj{"X-Planted": jx.Obj{"type": "string", "pattern": "^hdr" + strconv.Itoa(n)},
+				put(d, path, method, key, jx.Obj{"description": "r", "headers": jx.Obj{hdrName(n): jx.Obj{"type": "string", "pattern": "^hdr" + strconv.Itoa(n)},
 					"X-Both": jx.Obj{"type": "string", "pattern": "^both" + strconv.Itoa(n), "enum": jx.Arr{"both" + strconv.Itoa(n)}}}})
 			default:
-				put(d, path, method, key, jx.Obj{"description": "r", "headers": jx.Obj{"X-Planted": jx.Obj{"type": "string", "enum": jx.Arr{"hdr" + strconv.Itoa(n)}}}})
+				put(d, path, method, key, jx.Obj{"description": "r", "headers": jx.Obj{hdrName(n): jx.Obj{"type": "string", "enum": jx.Arr{"hdr" + strconv.Itoa(n)}}}})
 			}
 			return d
 		}})
@@ -300,7 +306,7 @@ func plantedSpecs() []plantedSpec {
 			depth := depth
 			out = append(out, plantedSpec{fmt.Sprintf("response/%s/header-items/depth%d", rk, depth), func(kind string, n int, path, method, key string) jx.Obj {
 				d := SkeletonDoc(path, method)
-				put(d, path, method, key, jx.Obj{"description": "r", "headers": jx.Obj{"X-Planted": jx.Obj{"type": "array", "items": SimpleItems(depth, leafSimple(kind, n))}}})
+				put(d, path, method, key, jx.Obj{"description": "r", "headers": jx.Obj{hdrName(n): jx.Obj{"type": "array", "items": SimpleItems(depth, leafSimple(kind, n))}}})
 				return d
 			}})
 		}
